@@ -487,6 +487,58 @@ def load(repo):
         lock.close()
 
 
+def _uniq(f):
+    """several locals of one function may share a name (loop counters, block-scoped temporaries): give each
+    declaration a unique analysis name `_u` (name, name'2, ...); reports keep the source name"""
+    seen = {}
+    ids = {}
+    for p in f.params:
+        seen[p.get("name")] = 1
+        ids[p.get("id")] = p.get("name")
+    for n in walk(f.body):
+        if n.get("kind") == "VarDecl":
+            nm = n.get("name")
+            k = seen.get(nm, 0) + 1
+            seen[nm] = k
+            u = nm if k == 1 else "%s'%d" % (nm, k)
+            n["_u"] = u
+            ids[n.get("id")] = u
+    for n in walk(f.body):
+        if n.get("kind") == "DeclRefExpr":
+            rd = n.get("referencedDecl", {})
+            if rd.get("id") in ids:
+                rd["_u"] = ids[rd["id"]]
+
+
+def uname(n):
+    """unique analysis name of a DeclRefExpr / VarDecl / MemberExpr"""
+    n = strip(n)
+    k = n.get("kind")
+    if k == "DeclRefExpr":
+        rd = n.get("referencedDecl", {})
+        return rd.get("_u") or rd.get("name")
+    if k == "VarDecl":
+        return n.get("_u") or n.get("name")
+    if k == "MemberExpr":
+        return n.get("name")
+    return None
+
+
+def size_obj(n):
+    """obj if n is `obj.size()` (resolved or template-dependent form) else None"""
+    n = strip(n)
+    k = n.get("kind")
+    if k == "CXXMemberCallExpr":
+        callee = strip(kids(n)[0])
+        if callee.get("name") == "size" and kids(callee):
+            return kids(callee)[0]
+    if k == "CallExpr":
+        callee = strip(kids(n)[0])
+        if callee.get("kind") == "CXXDependentScopeMemberExpr" and callee.get("member") == "size" and kids(callee):
+            return kids(callee)[0]
+    return None
+
+
 def _mk(d, files, srcdir, cached, dig):
     tu = TU(d["decls"], {"flags": d["flags"], "clang": d["clang"], "cached": cached, "digest": dig[:16],
                          "files": [os.path.basename(f) for f in files]})
@@ -500,6 +552,9 @@ def _mk(d, files, srcdir, cached, dig):
     missing = [f for f in files if os.path.abspath(f) not in seen]
     if missing:
         raise AnalysisError("engine source files not reached by the translation unit: %s" % missing)
+    for f in tu.all_fns():
+        if f.body is not None:
+            _uniq(f)
     nfn = sum(1 for f in tu.all_fns() if f.body is not None)
     tu.meta["functions"] = nfn
     tu.meta["classes"] = sorted(tu.classes)
